@@ -15,6 +15,16 @@ namespace HS
 theorem C13_total (q : Req) (e : Ent) (now : Nat) (hlen : e.len < U64) : serve q e now ≠ .panic :=
   serve_total q e now hlen
 
+/-- ... whatever `Entity::last_modified` returns — nothing, a time at or after the epoch, or a time
+before it, which `serve_inner` filters out first (`usableMtime`) and serves exactly like an
+entity without a modification time. -/
+theorem C13_total_any_mtime (q : Req) (len : Nat) (etag : Option Bytes) (m : MTime)
+    (hs : List (Bytes × Bytes)) (now : Nat) (hlen : len < U64) :
+    serve q { len := len, etag := etag, mtime := usableMtime m, headers := hs } now ≠ .panic ∧
+    serve q { len := len, etag := etag, mtime := usableMtime .preEpoch, headers := hs } now =
+      serve q { len := len, etag := etag, mtime := none, headers := hs } now :=
+  ⟨serve_total q _ now hlen, rfl⟩
+
 /-- The status is one of 200, 206, 304, 400, 405, 412, 413, 416. -/
 theorem C13_status_set (q : Req) (e : Ent) (now : Nat) (r : Resp) (h : serve q e now = .ok r) :
     r.status ∈ [200, 206, 304, 400, 405, 412, 413, 416] :=
